@@ -450,4 +450,53 @@ theorem delay_stop_continue_arms_are_the_models (c : Cfg) (u : U) (hp : u.phase 
     simp only [guardDelay, applyDelay]
     simp (config := { decide := true })
 
+/-- **the arms of `detect_fd_leaks`, as read from executor.rs on this run, are the model's clauses for a unit draining the handles
+    of an exited process** (the repair of F12): Stop pauses the attempt's stopwatch and the leak timer, each unless it already is,
+    and is acknowledged; Continue resumes each if it is paused; a shutdown signal and a cancellation change nothing -/
+theorem draining_arms_are_the_models (c : Cfg) (u : U) (hp : u.phase = .draining) :
+    interpArm applyDrain guardDrain Gen.drainStopArm u = onReq c u .stop ∧
+    interpArm applyDrain guardDrain Gen.drainContinueArm u = onReq c u .cont ∧
+    interpArm applyDrain guardDrain Gen.drainOtherCancelArm u = onReq c u .otherCancel ∧
+    (∀ sr, interpArm applyDrain guardDrain Gen.drainAnyOtherSignalArm u = onReq c u (.shutdown sr)) := by
+  obtain ⟨ph, sw, is_, gs, ws, ds, ls, lsp, hits, slow, to, lk⟩ := u
+  obtain ⟨swa, swp⟩ := sw
+  simp only at hp
+  subst hp
+  refine ⟨?_, ?_, ?_, ?_⟩
+  · unfold Gen.drainStopArm
+    simp only [onReq, interpArm, List.foldl]
+    simp only [guardDrain, applyDrain]
+    cases swp <;> cases lsp <;> simp (config := { decide := true })
+  · unfold Gen.drainContinueArm
+    simp only [onReq, interpArm, List.foldl]
+    simp only [guardDrain, applyDrain]
+    cases swp <;> cases lsp <;> simp (config := { decide := true })
+  · unfold Gen.drainOtherCancelArm
+    simp [onReq, interpArm]
+  · intro sr
+    unfold Gen.drainAnyOtherSignalArm
+    simp [onReq, interpArm]
+
+/-- **the job-control arms of `handle_signal_request`, as read from executor.rs on this run, are the model's clauses for a running
+    attempt**: Stop pauses the attempt's stopwatch and the slow-timeout interval (each unless it already is), stops the process
+    group and is acknowledged; Continue is debounced on the stopwatch — if it is paused it is resumed, the interval is resumed
+    if it is paused, and the process group is continued; otherwise nothing happens -/
+theorem main_loop_arms_are_the_models (c : Cfg) (u : U) (hp : u.phase = .running) :
+    interpArm applyMain guardMain Gen.mainStopArm u = onReq c u .stop ∧
+    interpArm applyMain guardMain Gen.mainContinueArm u = onReq c u .cont := by
+  obtain ⟨ph, sw, is_, gs, ws, ds, ls, lsp, hits, slow, to, lk⟩ := u
+  obtain ⟨swa, swp⟩ := sw
+  obtain ⟨isr, isp⟩ := is_
+  simp only at hp
+  subst hp
+  refine ⟨?_, ?_⟩
+  · unfold Gen.mainStopArm
+    simp only [onReq, interpArm, List.foldl]
+    simp only [guardMain, applyMain]
+    cases swp <;> cases isp <;> simp (config := { decide := true })
+  · unfold Gen.mainContinueArm
+    simp only [onReq, interpArm, List.foldl]
+    simp only [guardMain, applyMain]
+    cases swp <;> cases isp <;> simp (config := { decide := true })
+
 end NextestModel.C12
